@@ -80,7 +80,12 @@ class RecProg(NBProg):
 
 
 def gen_case(rng, i, nprocs):
-    p = RecProg(rng, nprocs, "@OUT@/c05.nc")
+    hints = []
+    if nprocs > 1 and rng.random() < 0.3:
+        hints.append("nc_num_aggrs_per_node:%d" % rng.randint(1, nprocs - 1))      # intra-node aggregation has its own record-count update
+    if rng.random() < 0.15:
+        hints.append("romio_no_indep_rw:true")                                      # header (numrecs) written collectively
+    p = RecProg(rng, nprocs, "@OUT@/c05.nc", info=";".join(hints) or None)
     p.create()
     p.random_schema(maxlen=4, maxdims=3, nrec=rng.choice([1, 1, 2, 3]), maxvars=4)
     recvars = [k for k, v in enumerate(p.fm.vars) if v.isrec]
